@@ -110,6 +110,12 @@ func genEnv(r *Rng, g *gCmd, consistent bool, distinct bool, small bool) string 
 				if pad%2 == 1 {
 					pad++
 				}
+			case "padIfPOdd":
+				// alignment of what follows the parameter block: (len(own parameter bytes)+3)%2, known when
+				// every parameter slot has a fixed width
+				if n, ok := fixedParamLen(g); ok && (n+3)%2 == 1 {
+					pad = 1
+				}
 			case "forCountInt", "forCountSub":
 				if consistent {
 					if e := pinnedRel(g.Name, s.F, nil); e != nil && e.K == "fint" {
@@ -217,6 +223,28 @@ func genEnv(r *Rng, g *gCmd, consistent bool, distinct bool, small bool) string 
 		return "."
 	}
 	return strings.Join(parts, ";")
+}
+
+// length of the parameter bytes a command's own fields occupy, when every parameter slot has a fixed width
+func fixedParamLen(g *gCmd) (int, bool) {
+	n := 0
+	for _, s := range g.Marshal {
+		if s.Blk != "P" {
+			if len(s.Body) > 0 {
+				return 0, false
+			}
+			continue
+		}
+		switch s.Op {
+		case "int", "quad":
+			n += s.W
+		case "u8":
+			n++
+		default:
+			return 0, false
+		}
+	}
+	return n, true
 }
 
 func isCstr(g *gCmd, f string) bool {
